@@ -323,9 +323,9 @@ theorem subElems_of : (es : List Expr) → esizeList es ≤ n → fxList .subEle
     · exact subElems_of es (by omega) h.2 x hx'
 
 theorem sub_of (e : Expr) (hs : esize e ≤ n) (h : fx .sub e = true) : SubOK p e := by
-  by_cases hst : ∃ v, e = .starred v
-  · obtain ⟨v, rfl⟩ := hst
-    exact subOK_starred p (H v (by simp [esize] at hs; omega) (by simpa [fx] using h))
+  have hst : ¬ ∃ v, e = .starred v := by
+    rintro ⟨v, rfl⟩
+    simp [fx] at h
   by_cases hsl : ∃ lo hi st, e = .slice lo hi st
   · obtain ⟨lo, hi, st, rfl⟩ := hsl
     simp only [fx, Bool.and_eq_true] at h
@@ -352,7 +352,7 @@ theorem sub_of (e : Expr) (hs : esize e ≤ n) (h : fx .sub e = true) : SubOK p 
         | cons x xs => exact absurd ⟨x, xs, rfl⟩ htp
       | _ => exact fx_to_plain h hns hnsl (by intro es he; cases he)
     exact subOK_of_elem p (.plain (H e hs hpl))
-      (unparse_level_succ p e 0 (prec_ne_zero e (fun t v he => hnm ⟨t, v, he⟩) (fun x xs he => htp ⟨x, xs, he⟩)))
+      (unparse_level_succ p e 0 (prec_ne_zero e (fun t v he => hnm ⟨t, v, he⟩) (fun x xs he => htp ⟨x, xs, he⟩))) hns
 
 theorem targetElem_of (e : Expr) (hs : esize e ≤ n) (h : fx .targetElem e = true) : TargetElemOK p e := by
   cases e with
